@@ -112,10 +112,49 @@ def run_modules(case):
     finally:
         if c is not None:
             c.cleanup()
+
+def run_names(_case=None):
+    """variables whose names differ only in characters that are not identifier characters stay DIFFERENT variables"""
+    variables = [dict(kind="aux", name="cost", eqn="3"), dict(kind="aux", name="Cost $", eqn="11"),
+                 dict(kind="aux", name="share", eqn="0.25"), dict(kind="aux", name="Share %", eqn="25"),
+                 dict(kind="aux", name="Probe 0", eqn="cost"), dict(kind="aux", name="Probe 1", eqn="cost_$"),
+                 dict(kind="aux", name="Probe 2", eqn="share"), dict(kind="aux", name="Probe 3", eqn="Share_%"),
+                 dict(kind="aux", name="Probe 4", eqn="cost_$ - cost + share_% / share")]
+    want = [3.0, 11.0, 0.25, 25.0, 108.0]
+    try:
+        c = Compiled(xmile("m", 0, 2, 1, variables))
+    except BaseException:
+        return None
+    try:
+        try:
+            sim = c.model()
+        except BaseException:
+            return None
+        for i, w in enumerate(want):
+            try:
+                got = float(sim.equation("probe%d" % i, 1.0))
+            except BaseException:
+                continue
+            if abs(got - w) > 1e-9:
+                return ("document with the variables 'cost' = 3, 'Cost $' = 11, 'share' = 0.25, 'Share %%' = 25: the probe %r evaluates to %r, the XMILE value is %r"
+                        % (variables[4 + i]["eqn"], got, w))
+        return None
+    finally:
+        c.cleanup()
 '''
 sys.path.insert(0, os.environ.get('VERIF_REPO', '/repo'))
 logging.getLogger().setLevel(logging.WARNING)
 exec(BODY)
+
+
+LITERAL_CASES = [
+    # spellings of numeric literals (each source alone in its document: a spelling the parser rejects fails loudly and is skipped)
+    (['bin', '*', ['num', -0.5], ['var', 'alpha']], ['- .5 * Alpha_Rate']), (['bin', '*', ['num', -0.5], ['var', 'alpha']], ['-.5 * Alpha_Rate']),
+    (['bin', '*', ['num', -0.5], ['var', 'alpha']], ['Alpha_Rate * -.5']), (['bin', '*', ['num', -0.5], ['var', 'alpha']], ['-0.5 * Alpha_Rate']),
+    (['bin', '+', ['var', 'alpha'], ['num', 0.25]], ['Alpha_Rate - -.25']), (['bin', '*', ['num', 0.5], ['var', 'alpha']], ['.5 * Alpha_Rate']),
+    (['bin', '*', ['num', 0.75], ['var', 'alpha']], ['Alpha_Rate * .75']), (['bin', '+', ['num', 0.002], ['var', 'alpha']], ['2e-3 + Alpha_Rate']),
+    (['bin', '+', ['num', 100.0], ['var', 'alpha']], ['1E2 + Alpha_Rate']), (['bin', '-', ['var', 'alpha'], ['num', 0.5]], ['Alpha_Rate -.5']),
+    (['bin', '*', ['num', -5.0], ['var', 'alpha']], ['-.5e1 * Alpha_Rate']), (['bin', '+', ['num', 1.5], ['var', 'alpha']], ['1.50 + Alpha_Rate'])]
 
 
 def spell(tree, rnd):
@@ -146,8 +185,18 @@ def main():
     todo.append((['bin', '+', ['var', 'alpha'], ['num', 1.0]], ['Alpha_Rate + NOSUCHFUNCTION(1)'], 0, 1))
     mt = ['bin', '-', ['bin', '*', ['var', 'alpha'], ['var', 'beta']], ['if', ['cmp', '>', ['var', 'gamma'], ['var', 'delta']], ['var', 'delta'], ['call', 'MAX', [['var', 'alpha'], ['var', 'gamma']]]]]
     todo.append((mt, [T.show(mt, dict(ident=REFS['asdefined']))], 0, 1, 'modules'))
+    for (lt, lsrc) in LITERAL_CASES:
+        todo.append((lt, lsrc, 0, 1))
+    n += 1
+    try:
+        bad = run_names()
+    except Exception:
+        bad = None
+    if bad:
+        body = 'sys.path.insert(0, %r)\n' % ROOT + BODY + '\nbad = run_names()\nprint("FAIL: " + bad if bad else "PASS")\nsys.stdout.flush()\nos._exit(1 if bad else 0)\n'
+        failures.append(dict(what=bad, script=write_replay('C03', 'names', body), known=None))
     seen = set()
-    while time.time() < t_end:
+    while time.time() < t_end and not [f for f in failures if not f.get('known')]:
         if todo:
             case = todo.pop(0)
         else:
